@@ -426,6 +426,49 @@ Definition reg_advance (c : clock) (rg : reg) (s : rstate) : rstate :=
     end.
 
 (* ------------------------------------------------------------------------- *)
+(** * The ENABLE of a register created through the frontend inside nested scopes
+      (frontend/EnableScope.cpp, ConditionalScope.cpp, Reg.cpp) *)
+
+(* four-state AND / NOT of Node_Logic (AND: a defined 0 dominates) *)
+Definition and3 (a b : tbit) : tbit :=
+  match a, b with
+  | B0, _ | _, B0 => B0
+  | B1, B1 => B1
+  | _, _ => BX
+  end.
+Definition not3 (a : tbit) : tbit := match a with B0 => B1 | B1 => B0 | BX => BX end.
+
+(* one enclosing scope, with the current VALUE of its condition *)
+Inductive scope :=
+| SC_EN (c : tbit)        (* ENIF(c) *)
+| SC_ALWAYS               (* ENALWAYS *)
+| SC_IF (c : tbit)        (* IF(c) *)
+| SC_ELSE (c : tbit).     (* the ELSE branch of IF(c) *)
+
+(* `own condition AND full condition of the parent scope`; no parent: the own condition *)
+Definition and_parent (own : tbit) (parent_full : option tbit) : tbit :=
+  match parent_full with Some p => and3 own p | None => own end.
+
+(* (m_fullEnableCondition of the innermost EnableScope, m_fullCondition of the innermost ConditionalScope) *)
+Definition scope_state := (option tbit * option tbit)%type.
+
+Definition scope_step (st : scope_state) (s : scope) : scope_state :=
+  let (en, cond) := st in
+  match s with
+  | SC_EN c => (Some (and_parent c en), cond)                 (* EnableScope::setEnable(c, checkParent = true) *)
+  | SC_ALWAYS => (Some B1, cond)                              (* setEnable('1', checkParent = false) *)
+  | SC_IF c => let cf := and_parent c cond in                 (* ConditionalScope::setCondition, then m_enScope.setup(full) *)
+               (Some (and_parent cf en), Some cf)
+  | SC_ELSE c => let cf := and_parent (not3 c) cond in
+                 (Some (and_parent cf en), Some cf)
+  end.
+
+(* the scopes from the outermost to the innermost; result: what internal::reg connects to ENABLE
+   (None: no scope at all, the input stays unconnected = always enabled) *)
+Definition scope_enable (stack : list scope) : option tbit :=
+  fst (fold_left scope_step stack (None, None)).
+
+(* ------------------------------------------------------------------------- *)
 (** * The data part of the simulator state and one time instant *)
 
 Record data := mk_data { d_regs : list rstate; d_inputs : list bv }.
